@@ -89,6 +89,8 @@ pub enum Link {
     EthernetMacs([u8; 12]),
     /// Ethernet with one 802.1Q tag (TPID 0x8100 or 0x88a8) in front of the real EtherType
     Vlan(u16),
+    /// Ethernet, padded to 60 bytes, frame check sequence captured (bytes behind the IP packet)
+    EthernetTrailer,
 }
 /// MAC address pairs that another framing would also accept: a raw IPv4 / IPv6 header, a NULL/loopback header of family
 /// 1e (+IPv4, +IPv6), 02, 18. Only the order in which a frame parser tries the framings tells such frames apart.
@@ -120,6 +122,7 @@ pub fn frame(link: Link, ip: &[u8]) -> Vec<u8> {
             f[..12].copy_from_slice(&m);
             f
         }
+        Link::EthernetTrailer => ethernet_with_trailer(ip),
         Link::Vlan(tpid) => {
             let e = frame(Link::Ethernet, ip);
             let mut f = e[..12].to_vec();
@@ -129,6 +132,18 @@ pub fn frame(link: Link, ip: &[u8]) -> Vec<u8> {
             f
         }
     }
+}
+
+/// The IP packet as a capture of an Ethernet link often shows it: the frame padded with zero bytes to the 60-byte
+/// minimum and followed by the four bytes of the frame check sequence. None of these bytes belongs to the IP packet
+/// (its total / payload length field says where it ends).
+pub fn ethernet_with_trailer(ip: &[u8]) -> Vec<u8> {
+    let mut f = frame(Link::Ethernet, ip);
+    while f.len() < 60 {
+        f.push(0);
+    }
+    f.extend([0x16, 0x03, 0x47, 0x45]);
+    f
 }
 
 /// Minimal classic pcap writer (LINKTYPE given) so that `analyze_pcap` can be driven from generated frames.
